@@ -1,0 +1,12 @@
+//go:build verif
+
+package warcdiscardstatus
+
+// Contracts for govc (property C02). Comment-only file: it adds no code.
+
+// WARCDiscardStatusHook: discard exactly the responses whose status code is in the configured list.
+//@ func WARCDiscardStatusHook
+//@   property C02
+//@   requires resp != nil && config.config != nil
+//@   modifies nothing
+//@   ensures [def] result0 == exists(j, 0, len(config.config.WARCDiscardStatus), config.config.WARCDiscardStatus[j] == resp.StatusCode) // C02: responses the discard policy rejects (status codes in --warc-discard-status)
